@@ -538,6 +538,216 @@ pub fn real_connect_blocking(r: &mut Report) {
     }
 }
 
+
+/// Helper mode of this executable: what the fork+exec'd child of `real_exec_eof` runs.
+pub fn exec_sleep_helper() -> ! {
+    std::thread::sleep(Duration::from_secs(3));
+    std::process::exit(0)
+}
+
+const EOF_DEADLINE_MS: i64 = 500;
+
+/// REAL kernel, SAMPLED timing: a stream obtained through every accept / connect variant, a real
+/// fork + exec of a long-lived helper (this executable in sleep mode) between obtaining and dropping
+/// it, then the libc peer's read must report end-of-stream within a short deadline.
+pub fn real_exec_eof(r: &mut Report) {
+    use tiny_std::net::{Ip, SocketAddress, TcpListener, TcpStream, TcpTryConnect, UnixListener, UnixStream};
+    let dir = format!("/tmp/h-net-exec-{}", unsafe { libc::getpid() });
+    let _ = std::fs::remove_dir_all(&dir);
+    std::fs::create_dir_all(&dir).expect("tmp dir");
+    let kinds: [(&str, bool); 6] =
+        [("accept", true), ("try_accept", true), ("accept_with_timeout", true), ("connect", false), ("try_connect", false), ("connect_with_timeout", false)];
+    let mut seq = 0;
+    for unix in [true, false] {
+        for (kind, accept_side) in kinds {
+            if unix && kind == "connect_with_timeout" {
+                continue;
+            }
+            for child in [false, true] {
+                seq += 1;
+                r.eval();
+                r.nontrivial_unique();
+                let f = if unix { "Unix" } else { "Tcp" };
+                let made_by = if accept_side { format!("{f}Listener::{kind}") } else { format!("{f}Stream::{kind}") };
+                let rep = json!({"phase": "real-exec-eof"});
+                // the application's stream is kept as a boxed droppable; `peer` is the libc end
+                let mut keep: Vec<Box<dyn std::any::Any>> = Vec::new();
+                let mut stream: Option<Box<dyn std::any::Any>> = None;
+                let mut peer: i32 = -1;
+                let mut aux: Vec<i32> = Vec::new();
+                let res: Result<(), String> = (|| unsafe {
+                    let p = format!("{dir}/s{seq}\0");
+                    let path = tiny_std::UnixStr::try_from_str(&p).map_err(|e| format!("{e}"))?;
+                    if accept_side {
+                        if unix {
+                            let mut l = UnixListener::bind(path).map_err(|e| format!("bind: {e}"))?;
+                            let c = libc::socket(libc::AF_UNIX, libc::SOCK_STREAM | libc::SOCK_CLOEXEC, 0);
+                            let (sa, sl) = sockaddr_un(&p[..p.len() - 1]);
+                            if libc::connect(c, &sa as *const _ as *const _, sl) != 0 {
+                                return Err(format!("peer connect errno {}", errno()));
+                            }
+                            peer = c;
+                            let s = match kind {
+                                "accept" => l.accept().map_err(|e| format!("{e}"))?,
+                                "accept_with_timeout" => l.accept_with_timeout(Duration::from_secs(1)).map_err(|e| format!("{e}"))?,
+                                _ => {
+                                    let mut got = None;
+                                    for _ in 0..500 {
+                                        if let Some(s) = l.try_accept().map_err(|e| format!("{e}"))? {
+                                            got = Some(s);
+                                            break;
+                                        }
+                                        std::thread::sleep(Duration::from_millis(1));
+                                    }
+                                    got.ok_or("try_accept never delivered")?
+                                }
+                            };
+                            stream = Some(Box::new(s));
+                            keep.push(Box::new(l));
+                        } else {
+                            let mut l = TcpListener::bind(&SocketAddress::new(Ip::V4([127, 0, 0, 1]), 0)).map_err(|e| format!("bind: {e}"))?;
+                            let addr = l.local_addr().map_err(|e| format!("{e}"))?;
+                            // the port, through a second look at the same listener
+                            let _ = addr;
+                            let port = {
+                                // local_addr gives the SocketAddress; connect the libc peer through a tiny-std-free path
+                                let dbg = format!("{addr:?}");
+                                dbg.split("port: ").nth(1).and_then(|x| x.trim_end_matches(|c: char| !c.is_ascii_digit()).parse::<u16>().ok()).ok_or("port")?
+                            };
+                            let c = libc::socket(libc::AF_INET, libc::SOCK_STREAM | libc::SOCK_CLOEXEC, 6);
+                            let mut a: libc::sockaddr_in = std::mem::zeroed();
+                            a.sin_family = libc::AF_INET as u16;
+                            a.sin_port = port.to_be();
+                            a.sin_addr.s_addr = u32::from_le_bytes([127, 0, 0, 1]);
+                            if libc::connect(c, &a as *const _ as *const _, 16) != 0 {
+                                return Err(format!("peer connect errno {}", errno()));
+                            }
+                            peer = c;
+                            let s = match kind {
+                                "accept" => l.accept().map_err(|e| format!("{e}"))?,
+                                "accept_with_timeout" => l.accept_with_timeout(Duration::from_secs(1)).map_err(|e| format!("{e}"))?,
+                                _ => {
+                                    let mut got = None;
+                                    for _ in 0..500 {
+                                        if let Some(s) = l.try_accept().map_err(|e| format!("{e}"))? {
+                                            got = Some(s);
+                                            break;
+                                        }
+                                        std::thread::sleep(Duration::from_millis(1));
+                                    }
+                                    got.ok_or("try_accept never delivered")?
+                                }
+                            };
+                            stream = Some(Box::new(s));
+                            keep.push(Box::new(l));
+                        }
+                    } else if unix {
+                        let (sa, sl) = sockaddr_un(&p[..p.len() - 1]);
+                        let l = libc::socket(libc::AF_UNIX, libc::SOCK_STREAM | libc::SOCK_CLOEXEC, 0);
+                        if libc::bind(l, &sa as *const _ as *const _, sl) != 0 || libc::listen(l, 8) != 0 {
+                            return Err(format!("peer listen errno {}", errno()));
+                        }
+                        aux.push(l);
+                        let s = match kind {
+                            "connect" => UnixStream::connect(path).map_err(|e| format!("{e}"))?,
+                            _ => UnixStream::try_connect(path).map_err(|e| format!("{e}"))?.ok_or("try_connect gave None")?,
+                        };
+                        stream = Some(Box::new(s));
+                        let (pr, _) = poll1(l, libc::POLLIN, 1000);
+                        let a = libc::accept4(l, std::ptr::null_mut(), std::ptr::null_mut(), libc::SOCK_CLOEXEC);
+                        if pr != 1 || a < 0 {
+                            return Err("peer accept failed".into());
+                        }
+                        peer = a;
+                    } else {
+                        let (l, a) = tcp_listener(8);
+                        libc::fcntl(l, libc::F_SETFD, libc::FD_CLOEXEC);
+                        aux.push(l);
+                        let addr = SocketAddress::new(Ip::V4([127, 0, 0, 1]), u16::from_be(a.sin_port));
+                        let s = match kind {
+                            "connect" => TcpStream::connect(&addr).map_err(|e| format!("{e}"))?,
+                            "connect_with_timeout" => TcpStream::connect_with_timeout(&addr, Duration::from_secs(1)).map_err(|e| format!("{e}"))?,
+                            _ => match TcpStream::try_connect(&addr).map_err(|e| format!("{e}"))? {
+                                TcpTryConnect::Connected(s) => s,
+                                TcpTryConnect::InProgress(p) => p.connect_blocking().map_err(|e| format!("{e}"))?,
+                            },
+                        };
+                        stream = Some(Box::new(s));
+                        let (pr, _) = poll1(l, libc::POLLIN, 1000);
+                        let acc = libc::accept4(l, std::ptr::null_mut(), std::ptr::null_mut(), libc::SOCK_CLOEXEC);
+                        if pr != 1 || acc < 0 {
+                            return Err("peer accept failed".into());
+                        }
+                        peer = acc;
+                    }
+                    Ok(())
+                })();
+                if let Err(e) = res {
+                    r.cap(format!("real-exec-eof {made_by}: set-up failed: {e}"));
+                    r.outcome("real-exec-eof:set-up-failed");
+                    continue;
+                }
+                unsafe {
+                    // ---- fork + exec of a child that outlives the stream; a CLOEXEC pipe tells when the exec happened
+                    let mut pid = -1;
+                    if child {
+                        let mut pp = [0i32; 2];
+                        libc::pipe2(pp.as_mut_ptr(), libc::O_CLOEXEC);
+                        let exe = std::ffi::CString::new("/proc/self/exe").unwrap();
+                        let arg = std::ffi::CString::new("--exec-sleep-helper").unwrap();
+                        let argv = [exe.as_ptr(), arg.as_ptr(), std::ptr::null()];
+                        pid = libc::fork();
+                        if pid == 0 {
+                            libc::execv(exe.as_ptr(), argv.as_ptr());
+                            libc::_exit(127);
+                        }
+                        libc::close(pp[1]);
+                        let mut b = [0u8; 1];
+                        let _ = libc::read(pp[0], b.as_mut_ptr() as *mut _, 1); // 0 = the child's copy was closed by exec
+                        libc::close(pp[0]);
+                    }
+                    // ---- the application drops its stream: the peer must see end-of-stream
+                    drop(stream.take());
+                    let t0 = mono_ns();
+                    let (pr, rev) = poll1(peer, libc::POLLIN, EOF_DEADLINE_MS);
+                    let rd_ret = if pr == 1 { rd(peer, 8) } else { -999 };
+                    let ms = (mono_ns() - t0) / 1_000_000;
+                    let mut alive = false;
+                    if pid > 0 {
+                        alive = libc::kill(pid, 0) == 0;
+                        libc::kill(pid, libc::SIGKILL);
+                        let mut st = 0;
+                        libc::waitpid(pid, &mut st, 0);
+                    }
+                    if pr == 1 && rd_ret == 0 {
+                        r.outcome(if child { "real-exec-eof:eof-although-child-lives" } else { "real-exec-eof:eof-no-child" });
+                        if r.samples.len() < 3 {
+                            r.sample(json!({"real": "exec-eof", "obtained_by": made_by, "child": child, "child_alive_at_check": alive, "eof_after_ms": ms}));
+                        }
+                    } else {
+                        r.outcome("real-exec-eof:no-eof");
+                        r.violation(
+                            &format!("C16:{made_by}:peer-sees-no-eof-after-drop"),
+                            format!(
+                                "REAL KERNEL (sampled timing): stream from {made_by}, {} dropped; the peer's poll(POLLIN, {EOF_DEADLINE_MS} ms) = {pr} (revents {rev:#x}), read = {rd_ret} — \
+                                 no end-of-stream within the deadline: the exec'd child still holds the connection (descriptor without close-on-exec)",
+                                if child { "a fork+exec'd child (alive) was started in between, then the stream was" } else { "no child; the stream was" }
+                            ),
+                            rep,
+                        );
+                    }
+                    libc::close(peer);
+                    for a in aux {
+                        libc::close(a);
+                    }
+                }
+                drop(keep);
+            }
+        }
+    }
+    let _ = std::fs::remove_dir_all(&dir);
+}
+
 /// Run the witnesses in a forked child (signals, timers) and return its report.
 pub fn run(out: &str) -> Report {
     let items = vec![isolated("conformance", || {
@@ -558,11 +768,18 @@ pub fn phase(args: &Args) -> Report {
         r
     })];
     r.merge(run_isolated(items, &format!("{}.rcb", args.out), "C16"));
+    let items = vec![isolated("real-exec-eof", || {
+        let mut r = Report::new();
+        real_exec_eof(&mut r);
+        r
+    })];
+    r.merge(run_isolated(items, &format!("{}.ree", args.out), "C16"));
     r.rule = "each kind of answer the model kernel can give (read: data / fewer than requested / EAGAIN / EOF; write: short count / EAGAIN when full; ppoll: ready, \
               not ready with zero time-out, 0 at/after the time-out, EINTR with the remaining time written back, readiness followed by progress; accept4: EAGAIN / descriptor; \
               unix connect: 0 / ECONNREFUSED / EAGAIN on a full backlog then 0; TCP connect: EINPROGRESS then POLLOUT then SO_ERROR 0 and second connect 0, ECONNREFUSED, \
               EALREADY while in progress; blocking-mode read / accept4 observed asleep in the kernel for 50 ms through /proc/self/task/<tid>/{syscall,stat}) is driven on the REAL kernel with non-blocking socket pairs and loopback TCP through libc; one evaluation = one kind; plus one real-kernel \
-              run of TcpStreamInProgress::connect_blocking on a connection that is still in progress"
+              run of TcpStreamInProgress::connect_blocking on a connection that is still in progress; plus (SAMPLED timing, 500 ms deadline) for every accept / connect variant of both families \
+              x {no child, a real fork+exec of this executable in sleep mode between obtaining and dropping the stream}: the libc peer's read must report end-of-stream after the drop"
         .into();
     r.bound("kinds", r.evaluations);
     r
